@@ -8,7 +8,7 @@ EXTENDS Safekeeper, Json
 TR == ndJsonDeserialize("trace.ndjson")
 VARIABLE t
 TInit == /\ t \in 1..Len(TR) /\ signed = TR[t].signed /\ actual = TR[t].actual /\ mode = TR[t].mode
-         /\ off = (IF mode[1] = -1 THEN 0 ELSE mode[1] * BS) /\ cache = <<>>
+         /\ off = StartOff /\ cache = <<>>
          /\ remaining = OpSize /\ outp = <<>> /\ result = "run"
 TNext == Next /\ UNCHANGED t
 TSpec == TInit /\ [][TNext]_<<vars, t>>
